@@ -18,7 +18,7 @@ TARGETS := apptoken mem mem.p64 mem.pvoid callback callback.tls invoke toctou to
 
 all: $(addprefix $(B)/,$(TARGETS))
 
-GUESTSO := $(B)/libguest0.so $(B)/libguest1.so
+GUESTSO := $(B)/libguest0.so $(B)/libguest1.so $(B)/libguest2.so $(B)/libguest3.so
 
 $(B)/guestlib.o: sim/guestlib.c | $(B)
 	$(CC) -O1 -g -c $< -o $@
@@ -56,11 +56,11 @@ $(B)/sched.o: sim/sched.cpp sim/sched.hpp | $(B)
 	$(CXX) -std=c++17 -O1 -g -c $< -o $@
 $(B)/sched.clang.o: sim/sched.cpp sim/sched.hpp | $(B)
 	$(CLANGXX) -std=c++17 -O1 -g -c $< -o $@
-$(B)/threads: worlds/threads.cpp $(B)/sched.o $(HDRS) $(SIMH) | $(B)
+$(B)/threads: worlds/threads.cpp $(B)/sched.o $(GUESTSO) $(HDRS) $(SIMH) | $(B)
 	$(CXX) $(PLAIN) $< $(B)/sched.o -o $@ $(LIBS)
-$(B)/threads.tls: worlds/threads.cpp $(B)/sched.o $(HDRS) $(SIMH) | $(B)
+$(B)/threads.tls: worlds/threads.cpp $(B)/sched.o $(GUESTSO) $(HDRS) $(SIMH) | $(B)
 	$(CXX) $(TLS) $< $(B)/sched.o -o $@ $(LIBS)
-$(B)/threads.tsan: worlds/threads.cpp $(B)/sched.clang.o $(HDRS) $(SIMH) | $(B)
+$(B)/threads.tsan: worlds/threads.cpp $(B)/sched.clang.o $(GUESTSO) $(HDRS) $(SIMH) | $(B)
 	$(CLANGXX) $(COMMON) -O1 -fsanitize=thread -DSIM_BUILD_NAME='"tsan"' $< $(B)/sched.clang.o -o $@ $(LIBS)
 
 $(B)/mem.p64: worlds/mem.cpp $(HDRS) $(SIMH) | $(B)
